@@ -110,6 +110,17 @@ def directed_auer(mon, rng):
             case["max_rounds"] = 60
             tr = runs.run_case(case, order, mon, max_extra_steps=0)
             judge_run(mon, tr, case, variant)
+    # epsilon exactly 0 (exact identification): well separated designs so that the runs end (seeded/Z04)
+    for variant in ("Auer", "PaVeBa", "Auer-emp"):
+        K = int(rng.integers(3, 6))
+        case, order = runs.make_case(rng, variant, m=2, K=K, eps=0.0, scale=1.0, ds_family=str(rng.choice(["random", "chain"])),
+                                     contraction=float(rng.choice([8, 16])), obs_mode=str(rng.choice(["adversarial", "controlled"])), noise_var=0.05)
+        case["max_rounds"] = 150
+        tr = runs.run_case(case, order, mon, max_extra_steps=0)
+        mon.count("eps_zero_runs")
+        if tr.terminated:
+            mon.count("eps_zero_runs_terminated")
+        judge_run(mon, tr, case, variant)
 
 
 def directed_many_designs(mon, rng):
